@@ -42,7 +42,6 @@ ASSUMPTIONS = [
 ROOT = os.path.dirname(os.path.dirname(os.path.dirname(os.path.abspath(__file__))))
 BASES = [(5,), (2, 3), (3, 4), (2, 2, 2)]
 DEPTH2_BASES = [(5,), (2, 3), (3, 2), (2, 2, 2)]  # 40 chunkings
-DEEP_BASES = [(5,), (2, 3)]  # 24 chunkings
 
 
 def _da():
@@ -240,7 +239,7 @@ def np_mb_chunks(x, ch):
 def plans(tier):
     if tier == "quick":
         return [("d1", (ALL,), BASES, "all"), ("d2", (CORE, CORE), DEPTH2_BASES, "fa")]
-    return [("d1", (ALL,), BASES, "all"), ("d2", (ALL, ALL), BASES, "fa"), ("d2c", (CORE, CORE), DEPTH2_BASES, "creation"), ("d3", (CORE, CORE, CORE), DEEP_BASES, "fa")]
+    return [("d1", (ALL,), BASES, "all"), ("d2", (ALL, ALL), BASES, "fa"), ("d2c", (CORE, CORE), DEPTH2_BASES, "creation"), ("d3", (CORE, CORE, CORE), DEPTH2_BASES, "fa")]
 
 
 def RULE(tier):
@@ -252,7 +251,7 @@ def RULE(tier):
     else:
         prog = (
             f"every program of depth <= 2 over the {len(ALL)}-step alphabet on from_array bases, every depth-2 core program on every base kind, "
-            f"every depth-3 program over the {len(CORE)}-step core alphabet on {DEEP_BASES}"
+            f"every depth-3 program over the {len(CORE)}-step core alphabet on from_array bases {DEPTH2_BASES}"
         )
     return (
         f"{prog}; shapes {BASES} under EVERY chunking. Steps: elementwise/ufunc/broadcast (incl. operands with different chunkings), slices/ints/"
